@@ -1298,7 +1298,17 @@ class Discharger:
                 node = cfg.node_containing(r)
                 # a break-guard comparing i with i_max must dominate
                 guards = [c for c in cfg.live if c.kind == "cond" and "i_max" in src(c.ast) and cfg.dominates(c, node)]
-                ok = ok and bool(guards)
+                # ... or the loop itself stops one short: `for i in range(len(config_l) - 1)` and `i` is not re-bound inside
+                short = False
+                p_ = getattr(r, "_parent", None)
+                while p_ is not None and p_ is not f.node:
+                    if isinstance(p_, ast.For) and isinstance(p_.target, ast.Name) and p_.target.id == "i" and isinstance(p_.iter, ast.Call) and src(p_.iter.func) == "range" and len(p_.iter.args) == 1:
+                        b_ = p_.iter.args[0]
+                        if isinstance(b_, ast.BinOp) and isinstance(b_.op, ast.Sub) and src(b_.left) == "len(config_l)" and isinstance(b_.right, ast.Constant) and isinstance(b_.right.value, int) and b_.right.value >= 1:
+                            if not any(isinstance(x, ast.Name) and x.id == "i" and isinstance(x.ctx, ast.Store) and x is not p_.target for x in ast.walk(p_)):
+                                short = True
+                    p_ = getattr(p_, "_parent", None)
+                ok = ok and (bool(guards) or short)
         return (ok, "the indentation parser appends an END sentinel and leaves its loops before reading past it")
 
     # ---- attribute on Optional
